@@ -196,13 +196,13 @@ def gen_connect_retry(rng, kind):
         dead, live = ["Tc"], ["Tl"]
     else:
         dead, live = ["Pm", "Pn", "Po", "Q0m", "Pf"], ["Pl", "Q0l"]
-    ops = [rng.choice(dead), "R"]
+    ops = [rng.choice(dead)] + (["t"] if rng.random() < 0.4 else []) + ["R"]
     behs = []
     for k in range(rng.randint(1, 4)):
         r = rng.random()
         nxt = rng.choice(live) if r < 0.6 else rng.choice(dead) if r < 0.85 else ""
         pre = rng.choice(["", "", "", "W", "G"]) if k else rng.choice(["", "", "W"])
-        post = rng.choice(["", "", "", "W"])
+        post = rng.choice(["", "", "", "W", "t"])
         behs.append(" ".join(x for x in (pre, nxt, post) if x))
     behs.append(rng.choice(["", "W", "H", "G", "W W", "W H", "G", "W " + rng.choice(live), rng.choice(live) + " W",
                             rng.choice(live) + " H", rng.choice(live) + " W H"]))
@@ -221,11 +221,11 @@ def gen_connect_slow(rng):
     if ops[0] == "Tc":
         ops += ["R"]
     for _ in range(rng.randint(1, 5)):
-        ops.append(rng.choice(["W", "H", "R", "R", "W"]))
+        ops.append(rng.choice(["W", "H", "R", "R", "W", "t", "t"]))
     ops += ["R", "R"]
     if rng.random() < 0.7:
         ops += ["C", "R", "R"]
-    behs = [rng.choice(["Th", "Th H", "Th W", "W Th", "", "H Th"]), rng.choice(["", "W", "H"]), ""]
+    behs = [rng.choice(["Th", "Th H", "Th W", "W Th", "", "H Th", "Th t", "Tc t"]), rng.choice(["", "W", "H", "t"]), ""]
     return "t ; %s ; %s ; " % (" ".join(ops), " | ".join(behs))
 
 
@@ -580,6 +580,11 @@ def connect_monitor(case, out):
     toks = out.split(";")[0].split()
     sub, cbs, pending, overlapped, late = {}, {}, [], set(), set()
     n_ok, n_cb, last_u = 0, 0, None
+    for t in toks:
+        if t.startswith("!write-while-connecting"):
+            return None, "a write(2)/sendmsg(2) was issued on the descriptor while its connect was outstanding " \
+                         "(uv_try_write must answer UV_EAGAIN without touching the socket: a write consumes the " \
+                         "socket's pending error and the connect callback then reports success)"
     for i, t in enumerate(toks):
         if t[0] == "q":
             # loop->active_reqs.count must be: connects accepted with 0 minus callbacks made
@@ -619,7 +624,7 @@ def connect_monitor(case, out):
             n_cb += 1
             if r in pending:
                 pending.remove(r)
-            nxt = next((v for v in toks[i + 1:] if v[0] not in "qzvy"), "")
+            nxt = next((v for v in toks[i + 1:] if v[0] not in "qzvyt"), "")
             if st == -125 and not (nxt == "x" or nxt.endswith(":-125")):
                 return None, "request %d cancelled (UV_ECANCELED) although the handle was not being destroyed" % r
         elif t[0] == "x":
@@ -871,14 +876,15 @@ FIXED = {
             "i ; Mtudtudtudt Mtudtudtud R R N " + "Af T N " * 20 + "; ; ",
             "i ; " + "Mt R " * 9 + "F1 Mt R N Mu R N " + "Af " * 11 + "; ; ",   # growth allocation fails
             "i ; Mt R F1 Mu R N Md R N Af Af Af ; ; "],                    # first allocation fails
-    "con-t": ["t ; Tl R W R R R R C R R ; | Tc | ; ", "t ; Tl R W R R R R ; | Tl | ; ", "t ; Tc W R R R R R ; | Tl | ; ", "t ; Tc W H R R R R R ; | Tl | ; ",
+    "con-t": ["t ; Tc t R R C R R ; ; ", "t ; Tc t t R R R ; t ; ", "t ; Th t R t R C R R ; ; ", "t ; Tl t R R C R R ; ; ",
+              "t ; Tc R R R R ; Tc t | t ; ", "t ; Tl R W R R R R C R R ; | Tc | ; ", "t ; Tl R W R R R R ; | Tl | ; ", "t ; Tc W R R R R R ; | Tl | ; ", "t ; Tc W H R R R R R ; | Tl | ; ",
               "t ; Th H R R R C R R ; ; ", "t ; Th W H R R R C R R ; ; ", "t ; Th R W R H R R C R R ; ; ", "t ; Th R R R C R R ; ; ",
               "t ; Tc R R R R ; Th H | W ; ", "t ; Tl R W H R R C R R ; ; ", "t ; Tl W H R R R C R R ; ; ",
               "t ; Tc R R R R R ; Tl | Tl | W ; ", "t ; Tc R R R R C R R ; Tc | Tl | W H ; ", "t ; Tl R R R ; W G ; ",
               "t ; B Tl R R C R ; ; ", "t ; B Tl R R Tl R R C R ; ; ", "t ; b T6 R T6 Tl R R C R ; ; ", "t ; Tl R Tc Tc R C R ; ; e101 e99 e24", "t ; Tl Tc R R ; Tc Tl ; s24 p s23",
               "t ; Tl R R C R ; ; ", "t ; Tc R R C R ; ; ", "t ; Tl C R R ; ; ", "t ; B Tl R R C R ; Tl ; ",
               "t ; Tl Tl R R C R ; ; e4 e111"],
-    "con-p": ["p ; Pm W R R R R R ; | Pl | ; ", "p ; Pm W H R R R R R ; | Pl | ; ", "p ; Pl R W R R R R C R R ; | Pl | ; ",
+    "con-p": ["p ; Pm t R R C R R ; ; ", "p ; Pl t R R C R R ; ; ", "p ; Pn t t R R R ; Pl t | t ; ", "p ; Pm W R R R R R ; | Pl | ; ", "p ; Pm W H R R R R R ; | Pl | ; ", "p ; Pl R W R R R R C R R ; | Pl | ; ",
               "p ; Pl W H R R R C R R ; ; ", "p ; Pm W H R R Pl R R C R R ; ; ", "p ; Pm H R R R ; Pl | ; ",
               "p ; Pm R R R R ; Pl | W ; ", "p ; Pn R R R C R R ; Pl | W H ; ", "p ; Pm R R R R ; Pm | W Pl | G ; ",
               "p ; Pf R R Pl R R C R ; ; ", "p ; Q0f R Pf R C R ; ; ", "p ; Pl R Pm R Po R Pe R Pn R C R ; ; ", "p ; Q1o Q2l Q0z Q0e Q0o R C R ; ; ", "p ; Pm C R ; ; s24",
